@@ -16,12 +16,23 @@ Part 1 (`fit.py:fit`, `fit_info.py:FitInfoFile.write/__init__/__iter__` for file
   `readAll` is `FitInfoFile(path, 'r')` followed by `list(iter(...))`: header first, then
   `pickle.load` until `EOFError`.
 
-Part 2 (post-processing histories): a state machine over an explicit heap of the caller's result
-objects.  `write_parameters`, `write_parameter_ranges`, `extract_parameters`, `plot` do
+Part 2 (post-processing histories): a state machine over an explicit TWO-LEVEL heap: objects (the
+caller's `FitInfo`s: one reference per attribute) and cells (the numpy arrays / `Source` / `meta` the
+attributes point to).  `write_parameters`, `write_parameter_ranges`, `extract_parameters`, `plot`,
+`plot_params_1d`, `plot_params_2d` do
 `for info in FitInfoFile(input_fits): info.keep(select_format); <print info>`; `filter_output` does
-`for info in …: <route info to good / bad>`.  Iterating a file yields fresh objects; iterating
-in-memory results yields a shallow copy (`Iter.copy`, the code as repaired) or the caller's own object
-(`Iter.alias`, the code before the repair — kept as a negative control).
+`for info in …: <route info to good / bad>`.  Iterating a file yields fresh objects with fresh cells;
+iterating in-memory results yields a SHALLOW copy — a fresh object whose attributes point at the SAME
+cells as the caller's object (`Iter.copy`, the code as repaired) — or the caller's own object
+(`Iter.alias`, the code before the repair; negative control).  `keep` REBINDS the per-fit attributes
+of the yielded object to shorter numpy views (`a[:n]`: same base cell, smaller visible length) and
+never writes into a cell.  The op `inplace` (keep, then write through an attribute of the yielded
+object — what no consumer in the repo does) is a second negative control: through the shared cells
+it changes the caller's arrays.
+
+Part 3: the explicit pickling state (`__getstate__` / `__setstate__`) of `Source`, `FitInfo`,
+`Extinction` as the field maps they are, and the lifting of a byte codec for states to a codec for
+the objects.
 -/
 namespace SF.Hist
 
@@ -34,6 +45,8 @@ inductive Err
   | fuel           -- model artefact: reader ran out of fuel (shown impossible for `length + 1`)
   | badRef         -- a dangling reference (cannot be written down in Python)
   | noFits         -- `IndexError`: `info.chi2[0]` of a record without fits (`filter_output`)
+  | badState       -- `KeyError` / wrong kind of value in `__setstate__`
+  | badValue       -- `ValueError` raised by a property setter (`Source.valid/flux/error`, `Extinction.wav/chi`)
   deriving DecidableEq, Repr
 
 /-- core Lean has no decidable equality for `Except`; the examples and the driver compare outcomes -/
@@ -188,61 +201,149 @@ def readAll (decH : List B → Dec Hdr B) (dec : List B → Dec Rec B) (bs : Lis
     | .error e => .error e
     | .ok rs => .ok (h, rs)
 
-/-- what is assumed of pickle on the objects written: loading what was dumped returns the object and
-    the unread remainder, and loading at the end of the stream raises `EOFError` -/
-structure CodecLaws {α : Type} (enc : α → List B) (dec : List B → Dec α B) : Prop where
-  roundtrip : ∀ x rest, dec (enc x ++ rest) = .ok x rest
+/-- what is assumed of pickle on the objects written (those satisfying `P`): loading what was dumped
+    returns the object and the unread remainder, and loading at the end of the stream raises `EOFError` -/
+structure CodecLawsOn {α : Type} (P : α → Prop) (enc : α → List B) (dec : List B → Dec α B) : Prop where
+  roundtrip : ∀ x, P x → ∀ rest, dec (enc x ++ rest) = .ok x rest
   atEnd : dec [] = .eof
 
-/-! ## Part 2 — post-processing histories over an explicit heap -/
+/-- the laws on every object -/
+abbrev CodecLaws {α : Type} (enc : α → List B) (dec : List B → Dec α B) : Prop :=
+  CodecLawsOn (fun _ => True) enc dec
+
+/-! ## Part 2 — post-processing histories over an explicit two-level heap -/
 
 /-- references are natural numbers (written `Nat` below so that `omega` sees the arithmetic) -/
 abbrev Ref := Nat
 
-/-- the caller's result objects (and the temporaries the iterations allocate; the model never
-    collects garbage — only the caller's references are observed) -/
-abbrev Heap (Rec : Type) := List (Nat × Rec)
+/-- a store of things addressed by references (the temporaries the iterations allocate stay in it;
+    the model never collects garbage — only the caller's references are observed) -/
+abbrev Heap (α : Type) := List (Nat × α)
 
-def lookupRef (r : Nat) : Heap Rec → Option Rec
+section heap
+variable {α : Type}
+
+def lookupRef (r : Nat) : Heap α → Option α
   | [] => none
   | (r', v) :: h => if r' = r then some v else lookupRef r h
 
-/-- in-place update of the object behind `r` -/
-def updateRef (r : Nat) (f : Rec → Rec) : Heap Rec → Heap Rec
+/-- in-place update of the thing behind `r` -/
+def updateRef (r : Nat) (f : α → α) : Heap α → Heap α
   | [] => []
   | (r', v) :: h => if r' = r then (r', f v) :: updateRef r f h else (r', v) :: updateRef r f h
 
 /-- a reference above every reference in use -/
-def freshRef : Heap Rec → Nat
+def freshRef : Heap α → Nat
   | [] => 0
   | (r, _) :: h => max (r + 1) (freshRef h)
 
-/-- a new object -/
-def alloc (h : Heap Rec) (v : Rec) : Heap Rec × Nat := ((freshRef h, v) :: h, freshRef h)
+/-- a new thing -/
+def alloc (h : Heap α) (v : α) : Heap α × Nat := ((freshRef h, v) :: h, freshRef h)
+
+end heap
+
+/-- one attribute of a `FitInfo` object: the cell it points to and, for the per-fit arrays
+    (`av sc chi2 model_id model_name model_fluxes`), the visible length of the numpy view `base[:n]`;
+    `none` for attributes that are not cut (`source`, `meta`, a `None`) -/
+structure Fld where
+  ref : Nat
+  len : Option Nat
+  deriving DecidableEq, Repr
+
+abbrev Obj := List Fld
+
+/-- the value of an attribute: (is it a per-fit array?, its visible rows) -/
+abbrev FV (X : Type) := Bool × List X
+
+/-- the value of a result object: its attributes' values -/
+abbrev RecV (X : Type) := List (FV X)
+
+structure Store (X : Type) where
+  objs : Heap Obj
+  cells : Heap (List X)
+
+variable {X : Type}
+
+def fldVal (cells : Heap (List X)) (f : Fld) : Option (FV X) :=
+  match lookupRef f.ref cells with
+  | none => none
+  | some a => some (match f.len with
+                    | none => (false, a)
+                    | some n => (true, a.take n))
+
+def objVal (cells : Heap (List X)) : Obj → Option (RecV X)
+  | [] => some []
+  | f :: fs =>
+    match fldVal cells f, objVal cells fs with
+    | some v, some vs => some (v :: vs)
+    | _, _ => none
+
+/-- what a reference to a result object leads to -/
+def deref (st : Store X) (r : Nat) : Option (RecV X) :=
+  match lookupRef r st.objs with
+  | none => none
+  | some o => objVal st.cells o
+
+/-- `FitInfo.keep` on values: every per-fit array is cut to its first `k` rows -/
+def keepFV (k : Nat) (v : FV X) : FV X := if v.1 then (v.1, v.2.take k) else v
+
+def keepV (k : Nat) (rv : RecV X) : RecV X := rv.map (keepFV k)
+
+def keepFld (k : Nat) (f : Fld) : Fld :=
+  match f.len with
+  | none => f
+  | some n => { f with len := some (min k n) }
+
+/-- `FitInfo.keep` on an object: `self.av = self.av[:k]` … rebinds each per-fit attribute to a shorter
+    view of the same cell; nothing is written into any cell -/
+def keepObj (k : Nat) (o : Obj) : Obj := o.map (keepFld k)
+
+/-- fresh cells holding the attribute values of an unpickled record -/
+def allocFields : Heap (List X) → RecV X → Heap (List X) × Obj
+  | cells, [] => (cells, [])
+  | cells, v :: rest =>
+    let r := allocFields cells rest
+    let c := alloc r.1 v.2
+    (c.1, ⟨c.2, if v.1 then some v.2.length else none⟩ :: r.2)
+
+/-- `info.<attr> op= …`: an in-place write through an attribute; through a view it rewrites the
+    visible rows of the base cell -/
+def pokeFld (g : X → X) (cells : Heap (List X)) (f : Fld) : Heap (List X) :=
+  updateRef f.ref (fun a => match f.len with
+                            | none => a.map g
+                            | some n => (a.take n).map g ++ a.drop n) cells
 
 /-- the three ways of handing results to a post-processing function.  A fit file is given by the
     records it holds (the functions only read it; their own outputs go to other paths). -/
-inductive Input (Rec : Type)
-  | file (recs : List Rec)
+inductive Input (X : Type)
+  | file (recs : List (RecV X))
   | obj (r : Nat)
   | list (rs : List Nat)
 
 /-- what `FitInfoFile.__iter__` walks over -/
-inductive Item (Rec : Type)
-  | disk (v : Rec)     -- a pickled record
-  | mem (r : Nat)      -- an element of `self._fits`
+inductive Item (X : Type)
+  | disk (v : RecV X)    -- a pickled record
+  | mem (r : Nat)        -- an element of `self._fits`
 
-def Input.items : Input Rec → List (Item Rec)
+def Input.items : Input X → List (Item X)
   | .file recs => recs.map .disk
   | .obj r => [.mem r]
   | .list rs => rs.map .mem
 
-inductive Op (Sel Thr : Type)
+inductive Op (Sel Thr Pk : Type)
   | writeParameters (s : Sel)
   | writeRanges (s : Sel)
   | extract (s : Sel)
   | plot (s : Sel)
+  | plotParams1d (s : Sel)
+  | plotParams2d (s : Sel)
   | filterOutput (t : Thr)
+  | inplace (s : Sel) (fld : Nat) (p : Pk)   -- NOT in the repo: keep, then write through attribute `fld`
+
+/-- the ops the repo has -/
+def Op.noInplace {Sel Thr Pk : Type} : Op Sel Thr Pk → Bool
+  | .inplace _ _ _ => false
+  | _ => true
 
 /-- how `FitInfoFile.__iter__` hands out in-memory results -/
 inductive Iter
@@ -252,113 +353,140 @@ inductive Iter
 
 /-- output of one call: what the selector ops print per source, or the two record lists that
     `filter_output` writes -/
-inductive Out (V Rec : Type)
+inductive Out (V R : Type)
   | printed (vs : List V)
-  | split (good bad : List Rec)
+  | split (good bad : List R)
   deriving DecidableEq, Repr
 
 /-- the record-level semantics the machine is parameterised by -/
-structure Sem (Rec Sel Thr V : Type) where
-  keep : Sel → Rec → Rec                  -- `FitInfo.keep`
-  view : Op Sel Thr → Rec → V             -- what the op prints for one (already cut) record
-  isGood : Thr → Rec → Except Err Bool    -- `filter_output`'s routing decision
+structure Sem (X Sel Thr V Pk : Type) where
+  nKeep : Sel → RecV X → Nat                     -- how many fits `keep(select_format)` leaves
+  view : Op Sel Thr Pk → RecV X → V              -- what the op prints for one (already cut) record
+  isGood : Thr → RecV X → Except Err Bool        -- `filter_output`'s routing decision
+  poke : Pk → X → X                              -- the in-place write of the `inplace` op
 
-variable {Sel Thr V : Type}
+variable {Sel Thr V Pk : Type}
+
+/-- `FitInfo.keep(select_format)` as a function of the record's value -/
+def Sem.keep (S : Sem X Sel Thr V Pk) (sel : Sel) (v : RecV X) : RecV X := keepV (S.nKeep sel v) v
 
 /-- one `next()` of `FitInfoFile.__iter__`: the reference of the yielded object -/
-def yield1 (mode : Iter) (h : Heap Rec) : Item Rec → Except Err (Heap Rec × Nat)
-  | .disk v => .ok (alloc h v)
+def yield1 (mode : Iter) (st : Store X) : Item X → Except Err (Store X × Nat)
+  | .disk v =>
+    let a := allocFields st.cells v
+    let o := alloc st.objs a.2
+    .ok (⟨o.1, a.1⟩, o.2)
   | .mem r =>
-    match lookupRef r h with
+    match lookupRef r st.objs with
     | none => .error .badRef
-    | some v =>
+    | some o =>
       match mode with
-      | .copy => .ok (alloc h v)
-      | .alias => .ok (h, r)
+      | .copy =>                    -- a fresh object, the SAME attribute references
+        let n := alloc st.objs o
+        .ok (⟨n.1, st.cells⟩, n.2)
+      | .alias => .ok (st, r)
 
-/-- `for info in fin: info.keep(select_format); <print info>` -/
-def iterKeep (S : Sem Rec Sel Thr V) (mode : Iter) (op : Op Sel Thr) (sel : Sel) :
-    Heap Rec → List (Item Rec) → Heap Rec × Except Err (List V)
-  | h, [] => (h, .ok [])
-  | h, it :: its =>
-    match yield1 mode h it with
-    | .error e => (h, .error e)
-    | .ok (h1, ref) =>
-      let h2 := updateRef ref (S.keep sel) h1
-      match lookupRef ref h2 with
-      | none => (h2, .error .badRef)
+/-- the write of the `inplace` op through attribute `i` of the object behind `ref` -/
+def pokeAt (S : Sem X Sel Thr V Pk) (st : Store X) (ref i : Nat) (p : Pk) : Store X :=
+  match lookupRef ref st.objs with
+  | none => st
+  | some o =>
+    match o[i]? with
+    | none => st
+    | some f => ⟨st.objs, pokeFld (S.poke p) st.cells f⟩
+
+/-- `for info in fin: info.keep(select_format); [write through an attribute;] <print info>` -/
+def iterKeep (S : Sem X Sel Thr V Pk) (mode : Iter) (op : Op Sel Thr Pk) (sel : Sel) (pk : Option (Nat × Pk)) :
+    Store X → List (Item X) → Store X × Except Err (List V)
+  | st, [] => (st, .ok [])
+  | st, it :: its =>
+    match yield1 mode st it with
+    | .error e => (st, .error e)
+    | .ok (st1, ref) =>
+      match deref st1 ref with
+      | none => (st1, .error .badRef)
       | some v =>
-        let r := iterKeep S mode op sel h2 its
-        (r.1, match r.2 with
-              | .error e => .error e
-              | .ok vs => .ok (S.view op v :: vs))
+        let st2 : Store X := ⟨updateRef ref (keepObj (S.nKeep sel v)) st1.objs, st1.cells⟩
+        let st3 : Store X := match pk with
+                             | none => st2
+                             | some ip => pokeAt S st2 ref ip.1 ip.2
+        match deref st3 ref with
+        | none => (st3, .error .badRef)
+        | some v' =>
+          let r := iterKeep S mode op sel pk st3 its
+          (r.1, match r.2 with
+                | .error e => .error e
+                | .ok vs => .ok (S.view op v' :: vs))
 
 /-- `for info in fin: (fout_good if good(info) else fout_bad).write(info)` -/
-def iterSplit (S : Sem Rec Sel Thr V) (mode : Iter) (t : Thr) :
-    Heap Rec → List (Item Rec) → Heap Rec × Except Err (List Rec × List Rec)
-  | h, [] => (h, .ok ([], []))
-  | h, it :: its =>
-    match yield1 mode h it with
-    | .error e => (h, .error e)
-    | .ok (h1, ref) =>
-      match lookupRef ref h1 with
-      | none => (h1, .error .badRef)
+def iterSplit (S : Sem X Sel Thr V Pk) (mode : Iter) (t : Thr) :
+    Store X → List (Item X) → Store X × Except Err (List (RecV X) × List (RecV X))
+  | st, [] => (st, .ok ([], []))
+  | st, it :: its =>
+    match yield1 mode st it with
+    | .error e => (st, .error e)
+    | .ok (st1, ref) =>
+      match deref st1 ref with
+      | none => (st1, .error .badRef)
       | some v =>
         match S.isGood t v with
-        | .error e => (h1, .error e)
+        | .error e => (st1, .error e)
         | .ok g =>
-          let r := iterSplit S mode t h1 its
+          let r := iterSplit S mode t st1 its
           (r.1, match r.2 with
                 | .error e => .error e
                 | .ok gb => .ok (if g then (v :: gb.1, gb.2) else (gb.1, v :: gb.2)))
 
-def printedOf (r : Heap Rec × Except Err (List V)) : Heap Rec × Except Err (Out V Rec) :=
+def printedOf (r : Store X × Except Err (List V)) : Store X × Except Err (Out V (RecV X)) :=
   (r.1, match r.2 with
         | .error e => .error e
         | .ok vs => .ok (.printed vs))
 
-def splitOf (r : Heap Rec × Except Err (List Rec × List Rec)) : Heap Rec × Except Err (Out V Rec) :=
+def splitOf (r : Store X × Except Err (List (RecV X) × List (RecV X))) : Store X × Except Err (Out V (RecV X)) :=
   (r.1, match r.2 with
         | .error e => .error e
         | .ok gb => .ok (.split gb.1 gb.2))
 
 /-- one post-processing call.  An exception leaves the heap as it is at that moment and is returned
     to the caller, who may go on calling. -/
-def step (S : Sem Rec Sel Thr V) (mode : Iter) (h : Heap Rec) (c : Op Sel Thr × Input Rec) :
-    Heap Rec × Except Err (Out V Rec) :=
+def step (S : Sem X Sel Thr V Pk) (mode : Iter) (st : Store X) (c : Op Sel Thr Pk × Input X) :
+    Store X × Except Err (Out V (RecV X)) :=
   match c.1 with
-  | .writeParameters s => printedOf (iterKeep S mode c.1 s h c.2.items)
-  | .writeRanges s => printedOf (iterKeep S mode c.1 s h c.2.items)
-  | .extract s => printedOf (iterKeep S mode c.1 s h c.2.items)
-  | .plot s => printedOf (iterKeep S mode c.1 s h c.2.items)
-  | .filterOutput t => splitOf (iterSplit S mode t h c.2.items)
+  | .writeParameters s => printedOf (iterKeep S mode c.1 s none st c.2.items)
+  | .writeRanges s => printedOf (iterKeep S mode c.1 s none st c.2.items)
+  | .extract s => printedOf (iterKeep S mode c.1 s none st c.2.items)
+  | .plot s => printedOf (iterKeep S mode c.1 s none st c.2.items)
+  | .plotParams1d s => printedOf (iterKeep S mode c.1 s none st c.2.items)
+  | .plotParams2d s => printedOf (iterKeep S mode c.1 s none st c.2.items)
+  | .filterOutput t => splitOf (iterSplit S mode t st c.2.items)
+  | .inplace s i p => printedOf (iterKeep S mode c.1 s (some (i, p)) st c.2.items)
 
 /-- a history of calls: final heap and the outcome of every call -/
-def run (S : Sem Rec Sel Thr V) (mode : Iter) :
-    Heap Rec → List (Op Sel Thr × Input Rec) → Heap Rec × List (Except Err (Out V Rec))
-  | h, [] => (h, [])
-  | h, c :: cs =>
-    let r := step S mode h c
+def run (S : Sem X Sel Thr V Pk) (mode : Iter) :
+    Store X → List (Op Sel Thr Pk × Input X) → Store X × List (Except Err (Out V (RecV X)))
+  | st, [] => (st, [])
+  | st, c :: cs =>
+    let r := step S mode st c
     let r' := run S mode r.1 cs
     (r'.1, r.2 :: r'.2)
 
 /-! ### specification side: what a call should output, as a function of the records handed in -/
 
-def itemVal (h : Heap Rec) : Item Rec → Option Rec
+def itemVal (st : Store X) : Item X → Option (RecV X)
   | .disk v => some v
-  | .mem r => lookupRef r h
+  | .mem r => deref st r
 
-def itemsVals (h : Heap Rec) : List (Item Rec) → Option (List Rec)
+def itemsVals (st : Store X) : List (Item X) → Option (List (RecV X))
   | [] => some []
   | it :: its =>
-    match itemVal h it, itemsVals h its with
+    match itemVal st it, itemsVals st its with
     | some v, some vs => some (v :: vs)
     | _, _ => none
 
 /-- the records an input holds -/
-def denote (h : Heap Rec) (i : Input Rec) : Option (List Rec) := itemsVals h i.items
+def denote (st : Store X) (i : Input X) : Option (List (RecV X)) := itemsVals st i.items
 
-def splitSpec (S : Sem Rec Sel Thr V) (t : Thr) : List Rec → Except Err (List Rec × List Rec)
+def splitSpec (S : Sem X Sel Thr V Pk) (t : Thr) : List (RecV X) → Except Err (List (RecV X) × List (RecV X))
   | [] => .ok ([], [])
   | v :: vs =>
     match S.isGood t v with
@@ -368,13 +496,17 @@ def splitSpec (S : Sem Rec Sel Thr V) (t : Thr) : List Rec → Except Err (List 
       | .error e => .error e
       | .ok gb => .ok (if g then (v :: gb.1, gb.2) else (gb.1, v :: gb.2))
 
-/-- the output of a call as a function of the records alone (no heap, no history) -/
-def specOut (S : Sem Rec Sel Thr V) (op : Op Sel Thr) (recs : List Rec) : Except Err (Out V Rec) :=
+/-- the output of a call of one of the repo's ops as a function of the records alone (no heap, no
+    history).  (For the `inplace` control it is what the call would print if it did not write.) -/
+def specOut (S : Sem X Sel Thr V Pk) (op : Op Sel Thr Pk) (recs : List (RecV X)) : Except Err (Out V (RecV X)) :=
   match op with
   | .writeParameters s => .ok (.printed (recs.map (fun v => S.view op (S.keep s v))))
   | .writeRanges s => .ok (.printed (recs.map (fun v => S.view op (S.keep s v))))
   | .extract s => .ok (.printed (recs.map (fun v => S.view op (S.keep s v))))
   | .plot s => .ok (.printed (recs.map (fun v => S.view op (S.keep s v))))
+  | .plotParams1d s => .ok (.printed (recs.map (fun v => S.view op (S.keep s v))))
+  | .plotParams2d s => .ok (.printed (recs.map (fun v => S.view op (S.keep s v))))
+  | .inplace s _ _ => .ok (.printed (recs.map (fun v => S.view op (S.keep s v))))
   | .filterOutput t =>
     match splitSpec S t recs with
     | .error e => .error e
@@ -382,23 +514,231 @@ def specOut (S : Sem Rec Sel Thr V) (op : Op Sel Thr) (recs : List Rec) : Except
 
 /-! ### a concrete record type (used by the driver and by the examples) -/
 
-/-- a result reduced to what histories can observe: which source, which rows are left (row `i` is the
-    `i`-th best model of the original result), and the best chi² -/
+/-- what the cells of a result hold, reduced to what histories can observe: row `i` of a per-fit
+    array (the `i`-th best model of the original result), the source, the best chi² and the best chi²
+    per data point -/
+inductive CX (K : Type)
+  | row (i : Nat)
+  | src (i : Nat)
+  | best (b : K)
+  | bestpd (b : K)
+  deriving DecidableEq, Repr
+
+/-- a result as histories see it -/
 structure CRec (K : Type) where
   src : Nat
   rows : List Nat
   best : K
+  bestpd : K
   deriving DecidableEq, Repr
 
-/-- selectors reduced to "keep the first `k src` rows"; `filter_output(chi=t)` keeps a source as good
-    when `chi and bestchi < chi` -/
+/-- attribute layout of the concrete records: `[per-fit rows, source, best chi², best chi²/n_data]` -/
+def CRec.toV {K : Type} (r : CRec K) : RecV (CX K) :=
+  [(true, r.rows.map .row), (false, [.src r.src]), (false, [.best r.best]), (false, [.bestpd r.bestpd])]
+
+def rowsOf {K : Type} : List (CX K) → Option (List Nat)
+  | [] => some []
+  | .row i :: xs => (rowsOf xs).map (i :: ·)
+  | _ :: _ => none
+
+def CRec.ofV {K : Type} : RecV (CX K) → Option (CRec K)
+  | [(true, rs), (false, [.src s]), (false, [.best b]), (false, [.bestpd c])] =>
+    (rowsOf rs).map (fun rows => ⟨s, rows, b, c⟩)
+  | _ => none
+
+/-- selectors reduced to "keep the first `k src` rows"; `filter_output(chi=a, cpd=b)` keeps a source as
+    good when `(chi and bestchi < chi) or (cpd and bestcpd < cpd)`; the `inplace` write shifts row
+    numbers by `p` -/
 def csem {K : Type} [Zero K] [LT K] [DecidableLT K] [DecidableEq K] :
-    Sem (CRec K) (Nat → Nat) K (Nat × List Nat) where
-  keep := fun k r => { r with rows := r.rows.take (k r.src) }
-  view := fun _ r => (r.src, r.rows)
-  isGood := fun t r =>
-    match r.rows with
-    | [] => .error .noFits
-    | _ :: _ => .ok (decide (t ≠ 0 ∧ r.best < t))
+    Sem (CX K) (Nat → Nat) (Option K × Option K) (Option (Nat × List Nat)) Nat where
+  nKeep := fun k v => match CRec.ofV v with
+                      | none => 0
+                      | some r => k r.src
+  view := fun _ v => (CRec.ofV v).map (fun r => (r.src, r.rows))
+  isGood := fun t v =>
+    match CRec.ofV v with
+    | none => .error .badState
+    | some r =>
+      match r.rows with
+      | [] => .error .noFits
+      | _ :: _ =>
+        let byChi := match t.1 with
+                     | none => false
+                     | some a => decide (a ≠ 0 ∧ r.best < a)
+        let byCpd := match t.2 with
+                     | none => false
+                     | some a => decide (a ≠ 0 ∧ r.bestpd < a)
+        .ok (byChi || byCpd)
+  poke := fun p x => match x with
+                     | .row i => .row (i + p)
+                     | y => y
+
+/-! ## Part 3 — the explicit pickling state of `Source`, `FitInfo`, `Extinction` -/
+
+/-- the kinds of plain values that occur in the states (`F` = floats) -/
+inductive PV0 (F : Type)
+  | none                                  -- `None`
+  | str (s : String)
+  | num (x : F)
+  | nats (l : List Nat)                   -- integer array
+  | nums (l : List F)                     -- float array (dimensionless `Quantity` or `ndarray`)
+  | strs (l : List String)                -- string array
+  | mat (m : List (List F))               -- 2-d float array
+  | qty (l : List F) (unit : String)      -- `Quantity` with a unit
+
+/-- a value of a state dictionary: a plain value or the state of a nested object -/
+inductive PV (F : Type)
+  | flat (v : PV0 F)
+  | obj (d : List (String × PV0 F))
+
+/-- `d[key]` (`KeyError` when missing) -/
+def getKey {α : Type} (key : String) : List (String × α) → Except Err α
+  | [] => .error .badState
+  | (k, v) :: d => if k = key then .ok v else getKey key d
+
+structure Source (F : Type) where
+  name : String
+  x : F
+  y : F
+  valid : List Nat
+  flux : List F
+  error : List F
+
+/-- `Source.__getstate__` -/
+def Source.getstate {F : Type} (s : Source F) : List (String × PV0 F) :=
+  [("name", .str s.name), ("x", .num s.x), ("y", .num s.y), ("valid", .nats s.valid),
+   ("flux", .nums s.flux), ("error", .nums s.error)]
+
+/-- the flag alphabet the `valid` setter accepts: `[0:4]` or 9 -/
+def flagOk (v : Nat) : Bool := decide (v ≤ 4) || decide (v = 9)
+
+/-- what the property setters of `Source` enforce -/
+def Source.WF {F : Type} (s : Source F) : Prop :=
+  s.valid.all flagOk = true ∧ s.flux.length = s.valid.length ∧ s.error.length = s.valid.length
+
+instance {F : Type} (s : Source F) : Decidable s.WF := by unfold Source.WF; infer_instance
+
+/-- `Source.__setstate__`: `__init__()`, then the six assignments in the order of the source, each
+    through its validating setter (`valid`: alphabet; `flux`, `error`: length `n_wav = len(valid)`) -/
+def Source.setstate {F : Type} (d : List (String × PV0 F)) : Except Err (Source F) :=
+  match getKey "name" d, getKey "x" d, getKey "y" d, getKey "valid" d, getKey "flux" d, getKey "error" d with
+  | .ok (.str name), .ok (.num x), .ok (.num y), .ok (.nats valid), .ok (.nums flux), .ok (.nums error) =>
+    if valid.all flagOk then
+      if flux.length = valid.length then
+        if error.length = valid.length then .ok ⟨name, x, y, valid, flux, error⟩
+        else .error .badValue
+      else .error .badValue
+    else .error .badValue
+  | _, _, _, _, _, _ => .error .badState
+
+/-- a `FitInfo` without its `meta` — exactly what `__getstate__` keeps -/
+structure FitCore (F : Type) where
+  source : Source F
+  av : List F
+  sc : List F
+  chi2 : List F
+  modelId : List Nat
+  modelName : List String
+  modelFluxes : Option (List (List F))
+
+structure FitInfo (F M : Type) where
+  core : FitCore F
+  fmeta : M        -- the `meta` attribute (`meta` is a Lean keyword)
+
+def FitCore.getstate {F : Type} (c : FitCore F) : List (String × PV F) :=
+  [("source", .obj c.source.getstate), ("av", .flat (.nums c.av)), ("sc", .flat (.nums c.sc)),
+   ("chi2", .flat (.nums c.chi2)), ("model_id", .flat (.nats c.modelId)),
+   ("model_name", .flat (.strs c.modelName)),
+   ("model_fluxes", .flat (match c.modelFluxes with
+                           | none => .none
+                           | some m => .mat m))]
+
+def FitCore.setstate {F : Type} (d : List (String × PV F)) : Except Err (FitCore F) :=
+  match getKey "source" d, getKey "av" d, getKey "sc" d, getKey "chi2" d, getKey "model_id" d,
+        getKey "model_name" d, getKey "model_fluxes" d with
+  | .ok (.obj sd), .ok (.flat (.nums av)), .ok (.flat (.nums sc)), .ok (.flat (.nums chi2)),
+    .ok (.flat (.nats mid)), .ok (.flat (.strs mn)), .ok (.flat mf) =>
+    match Source.setstate sd with
+    | .error e => .error e
+    | .ok s =>
+      match mf with
+      | .none => .ok ⟨s, av, sc, chi2, mid, mn, none⟩
+      | .mat m => .ok ⟨s, av, sc, chi2, mid, mn, some m⟩
+      | _ => .error .badState
+  | _, _, _, _, _, _, _ => .error .badState
+
+/-- `FitInfo.__getstate__`: seven named fields; `meta` is NOT part of the state -/
+def FitInfo.getstate {F M : Type} (x : FitInfo F M) : List (String × PV F) := x.core.getstate
+
+/-- `FitInfo.__setstate__`: `__init__()` (which makes a new empty `FitInfoMeta()`, here `m0`), then the
+    seven assignments -/
+def FitInfo.setstate {F M : Type} (m0 : M) (d : List (String × PV F)) : Except Err (FitInfo F M) :=
+  match FitCore.setstate d with
+  | .error e => .error e
+  | .ok c => .ok ⟨c, m0⟩
+
+/-- `info.meta = self._first_meta` in `FitInfoFile.__iter__` -/
+def FitInfo.attach {F M : Type} (h : M) (x : FitInfo F M) : FitInfo F M := { x with fmeta := h }
+
+structure Quantity (F : Type) where
+  vals : List F
+  unit : String
+
+structure Extinction (F : Type) where
+  wav : Quantity F
+  chi : Quantity F
+
+/-- `Extinction.__getstate__` -/
+def Extinction.getstate {F : Type} (e : Extinction F) : List (String × PV0 F) :=
+  [("wav", .qty e.wav.vals e.wav.unit), ("chi", .qty e.chi.vals e.chi.unit)]
+
+/-- what the setters of `Extinction` enforce (`validate_array`: physical type, equal shapes);
+    `isLen` / `isApm` say which unit strings are lengths / areas per unit mass -/
+def Extinction.WF {F : Type} (isLen isApm : String → Bool) (e : Extinction F) : Prop :=
+  isLen e.wav.unit = true ∧ isApm e.chi.unit = true ∧ e.chi.vals.length = e.wav.vals.length
+
+instance {F : Type} (isLen isApm : String → Bool) (e : Extinction F) : Decidable (e.WF isLen isApm) := by
+  unfold Extinction.WF; infer_instance
+
+/-- `Extinction.__setstate__`: `__init__()`, `self.wav = d['wav']`, `self.chi = d['chi']` -/
+def Extinction.setstate {F : Type} (isLen isApm : String → Bool) (d : List (String × PV0 F)) :
+    Except Err (Extinction F) :=
+  match getKey "wav" d, getKey "chi" d with
+  | .ok (.qty w wu), .ok (.qty c cu) =>
+    if isLen wu then
+      if isApm cu then
+        if c.length = w.length then .ok ⟨⟨w, wu⟩, ⟨c, cu⟩⟩ else .error .badValue
+      else .error .badValue
+    else .error .badValue
+  | _, _ => .error .badState
+
+/-- the shared metadata of a fit file -/
+structure Meta (F Fl : Type) where
+  modelDir : String
+  filters : Fl
+  law : Extinction F
+
+/-- the three header pickles: `model_dir`, `filters`, and the state of the extinction law -/
+def Meta.getstate {F Fl : Type} (m : Meta F Fl) : String × Fl × List (String × PV0 F) :=
+  (m.modelDir, m.filters, m.law.getstate)
+
+def Meta.setstate {F Fl : Type} (isLen isApm : String → Bool) (s : String × Fl × List (String × PV0 F)) :
+    Except Err (Meta F Fl) :=
+  match Extinction.setstate isLen isApm s.2.2 with
+  | .error e => .error e
+  | .ok l => .ok ⟨s.1, s.2.1, l⟩
+
+/-- pickling an object = pickling its state; unpickling = unpickling a state, then `__setstate__`
+    (an exception in `__setstate__` surfaces as a failed load) -/
+def encVia {α σ : Type} (get : α → σ) (encS : σ → List B) (x : α) : List B := encS (get x)
+
+def decVia {α σ : Type} (set : σ → Except Err α) (decS : List B → Dec σ B) (bs : List B) : Dec α B :=
+  match decS bs with
+  | .eof => .eof
+  | .bad => .bad
+  | .ok s rest =>
+    match set s with
+    | .ok x => .ok x rest
+    | .error _ => .bad
 
 end SF.Hist
